@@ -63,7 +63,9 @@ def instantiate(formulas, depth=DEPTH):
 
 def build_query(vc, depth=DEPTH, extra_assumptions=()):
     fs = list(vc.assumptions) + list(extra_assumptions) + [z3.Not(vc.goal)]
-    lem = [LEMMAS[n].formula for n in sorted(vc.uses) if n in LEMMAS]
+    # pattern-less lemmas are only usable through explicit ground instances (hints); giving the bare
+    # quantifier to the solver would only start model-based instantiation
+    lem = [LEMMAS[n].formula for n in sorted(vc.uses) if n in LEMMAS and LEMMAS[n].patterns]
     inst = instantiate(fs, depth)
     s = z3.Solver()
     for f in lem + fs + inst:
@@ -196,7 +198,8 @@ def discharge(vcs, timeout_ms=10000, backends=("z3-api", "cvc5"), want_model=Tru
         tasks = []
         tmo = timeout_ms if rnd == len(depths) - 1 else max(1000, timeout_ms // 4)
         for v in todo:
-            d = getattr(v, "depth", None) or depth
+            d = getattr(v, "depth", None)
+            d = depth if d is None else d
             v.smt2 = build_query(v, d)
             tasks.append((v.smt2, tmo, want_model, list(backends)))
         results = pool().map(_solve_one, tasks, chunksize=1) if len(tasks) > 1 else [_solve_one(tasks[0])]
